@@ -134,7 +134,8 @@ static uint32_t xmi2mid_ExtractTracksFromXmi(struct xmi2mid_xmi_ctx *ctx);
 static uint32_t xmi2mid_read1(struct xmi2mid_xmi_ctx *ctx)
 {
     uint8_t b0;
-    assert(ctx->src_ptr + 1 < ctx->src_end);
+    if (ctx->src_end - ctx->src_ptr < 1) /* truncated data */
+        return (0);
     b0 = *ctx->src_ptr++;
     return (b0);
 }
@@ -142,7 +143,10 @@ static uint32_t xmi2mid_read1(struct xmi2mid_xmi_ctx *ctx)
 static uint32_t xmi2mid_read2(struct xmi2mid_xmi_ctx *ctx)
 {
     uint8_t b0, b1;
-    assert(ctx->src_ptr + 2 < ctx->src_end);
+    if (ctx->src_end - ctx->src_ptr < 2) { /* truncated data */
+        ctx->src_ptr = ctx->src_end;
+        return (0);
+    }
     b0 = *ctx->src_ptr++;
     b1 = *ctx->src_ptr++;
     return (b0 + ((uint32_t)b1 << 8));
@@ -151,7 +155,10 @@ static uint32_t xmi2mid_read2(struct xmi2mid_xmi_ctx *ctx)
 static uint32_t xmi2mid_read4(struct xmi2mid_xmi_ctx *ctx)
 {
     uint8_t b0, b1, b2, b3;
-    assert(ctx->src_ptr + 4 < ctx->src_end);
+    if (ctx->src_end - ctx->src_ptr < 4) { /* truncated data */
+        ctx->src_ptr = ctx->src_end;
+        return (0);
+    }
     b3 = *ctx->src_ptr++;
     b2 = *ctx->src_ptr++;
     b1 = *ctx->src_ptr++;
@@ -162,7 +169,10 @@ static uint32_t xmi2mid_read4(struct xmi2mid_xmi_ctx *ctx)
 static uint32_t xmi2mid_read4le(struct xmi2mid_xmi_ctx *ctx)
 {
     uint8_t b0, b1, b2, b3;
-    assert(ctx->src_ptr + 4 < ctx->src_end);
+    if (ctx->src_end - ctx->src_ptr < 4) { /* truncated data */
+        ctx->src_ptr = ctx->src_end;
+        return (0);
+    }
     b3 = *ctx->src_ptr++;
     b2 = *ctx->src_ptr++;
     b1 = *ctx->src_ptr++;
@@ -172,7 +182,11 @@ static uint32_t xmi2mid_read4le(struct xmi2mid_xmi_ctx *ctx)
 
 static void xmi2mid_copy(struct xmi2mid_xmi_ctx *ctx, char *b, uint32_t len)
 {
-    assert(ctx->src_ptr + len < ctx->src_end);
+    uint32_t left = (uint32_t)(ctx->src_end - ctx->src_ptr);
+    if (len > left) { /* truncated data: the rest reads as zeros */
+        memset(b + left, 0, len - left);
+        len = left;
+    }
     memcpy(b, ctx->src_ptr, len);
     ctx->src_ptr += len;
 }
@@ -218,7 +232,9 @@ static void xmi2mid_write4(struct xmi2mid_xmi_ctx *ctx, uint32_t val)
     ctx->dstrem -= 4;
 }
 
-static void xmi2mid_seeksrc(struct xmi2mid_xmi_ctx *ctx, uint32_t pos) {
+static void xmi2mid_seeksrc(struct xmi2mid_xmi_ctx *ctx, uint64_t pos) {
+    if (pos > ctx->srcsize) /* never leave the source data */
+        pos = ctx->srcsize;
     ctx->src_ptr = ctx->src + pos;
 }
 
@@ -229,7 +245,11 @@ static void xmi2mid_seekdst(struct xmi2mid_xmi_ctx *ctx, uint32_t pos) {
     ctx->dstrem = ctx->dstsize - pos;
 }
 
-static void xmi2mid_skipsrc(struct xmi2mid_xmi_ctx *ctx, int32_t pos) {
+static void xmi2mid_skipsrc(struct xmi2mid_xmi_ctx *ctx, int64_t pos) {
+    if (pos > ctx->src_end - ctx->src_ptr) /* never leave the source data */
+        pos = ctx->src_end - ctx->src_ptr;
+    else if (pos < ctx->src - ctx->src_ptr)
+        pos = ctx->src - ctx->src_ptr;
     ctx->src_ptr += pos;
 }
 
@@ -898,6 +918,10 @@ static int32_t xmi2mid_ConvertSystemMessage(struct xmi2mid_xmi_ctx *ctx, const i
 
     i += xmi2mid_GetVLQ(ctx, &ctx->current->len);
 
+    /* truncated data: the message can't be longer than the rest of the source */
+    if (ctx->current->len > (uint32_t)(ctx->src_end - ctx->src_ptr))
+        ctx->current->len = (uint32_t)(ctx->src_end - ctx->src_ptr);
+
     if (!ctx->current->len)
         return (i);
 
@@ -1151,12 +1175,12 @@ static uint32_t xmi2mid_ExtractTracksFromXmi(struct xmi2mid_xmi_ctx *ctx) {
             }
 
         rbrn_nodata:
-            xmi2mid_seeksrc(ctx, begin + ((len + 1) & ~1));
+            xmi2mid_seeksrc(ctx, (uint64_t)begin + (((uint64_t)len + 1) & ~(uint64_t)1));
             continue;
         }
 
         if (memcmp(buf, "EVNT", 4)) {
-            xmi2mid_skipsrc(ctx, (len + 1) & ~1);
+            xmi2mid_skipsrc(ctx, (int64_t)(((uint64_t)len + 1) & ~(uint64_t)1));
             continue;
         }
 
@@ -1187,7 +1211,7 @@ static uint32_t xmi2mid_ExtractTracksFromXmi(struct xmi2mid_xmi_ctx *ctx) {
         num++;
 
         /* go to start of next track */
-        xmi2mid_seeksrc(ctx, begin + ((len + 1) & ~1));
+        xmi2mid_seeksrc(ctx, (uint64_t)begin + (((uint64_t)len + 1) & ~(uint64_t)1));
 
         /* clear branch points */
         for (unsigned i = 0; i < 128; ++i)
@@ -1255,7 +1279,7 @@ badfile:    /*_WM_GLOBAL_ERROR(__FUNCTION__, __LINE__, WM_ERR_CORUPT, "(too shor
 
                 if (memcmp(buf, "INFO", 4)) {
                     /* Must align */
-                    xmi2mid_skipsrc(ctx, (chunk_len + 1) & ~1);
+                    xmi2mid_skipsrc(ctx, (int64_t)(((uint64_t)chunk_len + 1) & ~(uint64_t)1));
                     i += (chunk_len + 1) & ~1;
                     continue;
                 }
@@ -1275,7 +1299,7 @@ badfile:    /*_WM_GLOBAL_ERROR(__FUNCTION__, __LINE__, WM_ERR_CORUPT, "(too shor
 
             /* Ok now to start part 2
              * Goto the right place */
-            xmi2mid_seeksrc(ctx, start + ((len + 1) & ~1));
+            xmi2mid_seeksrc(ctx, (uint64_t)start + (((uint64_t)len + 1) & ~(uint64_t)1));
             if (xmi2mid_getsrcpos(ctx) + 12 > file_size)
                 goto badfile;
 
